@@ -303,6 +303,34 @@ func c14RunScript(c *evid.Ctx, sc c14Script, seed int64) {
 			c.Count("close_blocked_while_op_parked", 1)
 		}
 		park.Release()
+	case "close-flagged-rotation-exits-first":
+		// a writer waits for a pending rotation; Close has set its flag but not taken the lock;
+		// the rotation goroutine gets the lock first, sees the flag and exits; then Close runs
+		startOp()
+		wp := ctl.ParkAt("op", "awaitRotation.wait", 0)
+		if !wp.WaitReached(c14Watchdog) {
+			c.Inconclusive("script %v: the writer never waited for the pending rotation", sc)
+			wp.Release()
+			preRot.Release()
+			return
+		}
+		wp.Release()
+		cp := ctl.ParkAt("close", "Close.flagged", 0)
+		startClose()
+		if !cp.WaitReached(c14Watchdog) {
+			c.Inconclusive("script %v: Close never reached Close.flagged", sc)
+			preRot.Release()
+			return
+		}
+		preRot.Release()
+		for i := 0; i < 5000; i++ {
+			if _, _, ex := hooks.Rotations(e.w); ex > 0 {
+				break
+			}
+			time.Sleep(200 * time.Microsecond)
+		}
+		overlapped = true
+		cp.Release()
 	case "close-parked-flagged", "close-parked-locked":
 		pt := "Close.flagged"
 		if sc.CloseMode == "close-parked-locked" {
@@ -622,6 +650,9 @@ func runC14(c *evid.Ctx) {
 					role = "*"
 				}
 				scripts = append(scripts, c14Script{Method: m.m, Point: p, Role: role, CloseMode: "during-park", Real: real})
+			}
+			if m.m == "StoreLogs-waiting" || m.m == "DeleteRange-waiting" {
+				scripts = append(scripts, c14Script{Method: m.m, Point: "awaitRotation.wait", Role: "op", CloseMode: "close-flagged-rotation-exits-first", Real: real})
 			}
 			if m.m != "StoreLogs-waiting" && m.m != "DeleteRange-waiting" && m.m != "GetLog-across-rotation" {
 				scripts = append(scripts, c14Script{Method: m.m, Point: "-", CloseMode: "close-parked-flagged", Real: real},
